@@ -607,14 +607,14 @@ impl SubscribeBuilder {
             // send subscribe to client
             log::trace!("Sending subscribe packet {packet:#?}");
 
-            let rx = shared.wait_response(packet.packet_id, AckType::Subscribe)?;
-            match shared.encode_packet(codec::Packet::Subscribe(packet)) {
-                Ok(()) => {
-                    // wait ack from peer
-                    rx.await.map_err(|_| SendPacketError::Disconnected).map(Ack::subscribe)
-                }
-                Err(err) => Err(SendPacketError::Encode(err)),
-            }
+            let rx = shared.wait_response(
+                packet.packet_id,
+                AckType::Subscribe,
+                codec::Packet::Subscribe(packet),
+            )?;
+
+            // wait ack from peer
+            rx.await.map_err(|_| SendPacketError::Disconnected).map(Ack::subscribe)
         }
     }
 }
@@ -694,14 +694,14 @@ impl UnsubscribeBuilder {
             // send unsubscribe to client
             log::trace!("Sending unsubscribe packet {packet:#?}");
 
-            let rx = shared.wait_response(packet.packet_id, AckType::Unsubscribe)?;
-            match shared.encode_packet(codec::Packet::Unsubscribe(packet)) {
-                Ok(()) => {
-                    // wait ack from peer
-                    rx.await.map_err(|_| SendPacketError::Disconnected).map(Ack::unsubscribe)
-                }
-                Err(err) => Err(SendPacketError::Encode(err)),
-            }
+            let rx = shared.wait_response(
+                packet.packet_id,
+                AckType::Unsubscribe,
+                codec::Packet::Unsubscribe(packet),
+            )?;
+
+            // wait ack from peer
+            rx.await.map_err(|_| SendPacketError::Disconnected).map(Ack::unsubscribe)
         }
     }
 }
